@@ -4,14 +4,39 @@ spec   : specs/Geometry.tla, machine InitFwd (Place, Flip, Tilt, Shift, Origin, 
          rational arithmetic at right / Pythagorean angles.  TLC checks TypeOK, StackOrtho, NormLaw, OmegaLaw,
          OriginLaw, Roundtrip on every state and emits one record per terminal state (exact xyz, o, d, G, A = G d,
          Bx = G e_x).
-binding: mode A.  The records of one parameter set form a batch of peaks; the batch is fed to every route
-         (transform.* reference functions, Ctransform + raw cImageD11 kernels with an independent packing,
-         columnfile.updateGeometry / updateGV fast and slow with the translation by parameter and by argument, the
-         numba copies in sinograms/point_by_point incl. compute_gve and get_local_gv, refinegrains.compute_gv) and
-         every output is compared with the oracle (never with another route).  A seeded subset of the batches is
-         also sent with lengths 1, 2 and 4097 (across the OpenMP chunking).
+binding: mode A.  The records of one parameter set form a batch of peaks; the batch is fed to every route and every
+         output is compared with the oracle (never with another route):
+           py     transform.* reference functions, stage by stage
+           c      Ctransform (sf2xyz, xyz2gv, xyz2geometry, sf2gv) + raw cImageD11 kernels with an independent packing and
+                  dirty output buffers; compute_xlylzl also with a non-zero dist[1], dist[2]
+           ct     Ctransform with caller-supplied out= buffers (must be returned, every row written); an object built
+                  for other parameters whose .pars are edited followed by reset(); the source dictionary edited after
+                  construction (must not matter)
+           cf     columnfile.updateGeometry / updateGV fast and slow, translation by parameter and by argument;
+                  histories on one object (other parameters first, then set / dict.update / loadparameters from a file)
+           cfx    columnfile storage and naming variants: xc,yc titles; one 2-D array behind the columns that already
+                  holds all nine geometry columns (attribute, getcolumn and array rows must agree); a bare 2-D array;
+                  after copy(); after filter(all true); bigarray taken between two updates
+           numba  the copies in sinograms/point_by_point incl. compute_gve (constant xpos and one xpos per peak) and
+                  get_local_gv on three (si, sj, ystep) grids incl. (0,0) and a negative ystep
+           rg     refinegrains.compute_gv (OmFloat False / True)
+           al     refinegrains.assignlabels with two grains (this batch's translation last / first, the other grain and
+                  the parameter object carry other translations): .gv and the gx,gy,gz columns after the re-used buffer,
+                  tth_per_grain / eta_per_grain of the peaks given to this batch's grain (float32 columns: 5e-5 degree)
+         After every family the peak arrays handed in (sc, fc, omega, signed omega, xyz) and the input columns of every
+         columnfile must be bit-identical.  A route that raises is reported as a disagreement.
+         Instance families that the model does not distinguish (it is covariant under them): batch lengths 1, 2 and 4097
+         (across the OpenMP chunking; 1, 2, 4 and the default number of threads) on a seeded 1.5 % of the batches; the
+         parameters typed as a parameter file yields them (ints where integral - directly and through
+         parameters.set_parameters / dumbtypecheck from text) on a seeded 5 %: every family again, numba through three
+         leaf functions in one int pattern each.  Batches of the exhaustive corner set go through every basic family;
+         parameter sets met by the simulation only (mostly one peak) go through ct, al, the one-object histories and the
+         two further get_local_gv grids on seeded subsets (1/2, 1/2, 1/4, 1/3); cfx runs on a seeded third of all batches,
+         the parameter-file history on a quarter, the two grain positions of al alternate.  notes["families"] counts how
+         often each family was exercised (vacuity guard: >= 20 each).
 tiers  : quick    = exhaustive corner set (all 256 switch combinations x both omega signs, default flip) plus
-                    `tlc -simulate` of 3000 lattice points seeded by VERIF_SEED
+                    `tlc -simulate` of 3000 lattice points seeded by VERIF_SEED (guard: all 8 flips, both omega signs
+                    and all 4 pixel-size sign pairs occurred)
          thorough = the whole lattice: 256 switch sets x 8 flips x 2 omega signs x 4 pixel-size sign pairs x 4 peaks
                     x 4 omegas = 262144 records
 """
@@ -28,17 +53,30 @@ def nontrivial(par):
     return any(par["sw"]) or par["flip"] != 1 or par["sgn"] != 1 or par["zs"] < 0 or par["ys"] < 0
 
 
-def judge_batch(chk, rt, group, lengths, stats, replaying=None):
+BASE_ROUTES = ("py", "c", "ct", "cf", "numba", "rg", "al")
+
+
+def judge_batch(chk, rt, group, lengths, stats, replaying=None, plan=None):
+    """plan = {"routes": route families of the plain batch, "typed": None / "int" / "str"} (default: everything)"""
     orc = G.Oracle(group)
+    plan = plan or {"routes": G.ALL_ROUTES, "typed": None}
+    jobs = []               # (length, threads, routes, typing)
     for L in lengths:
+        if L is None:
+            jobs.append((None, 2, plan["routes"], None))
+            if plan.get("typed"):
+                jobs.append((None, 2, G.ALL_ROUTES, plan["typed"]))
+        elif L < 4097:
+            # small batches: 2 OpenMP threads (cheap to wake)
+            jobs.append((L, 2, G.ALL_ROUTES, None))
+        else:
+            # the 4097-row batches: 1, 4 and the default thread count
+            jobs += [(L, 1, ("c", "ct", "cf", "al"), None), (L, 4, ("c", "ct", "cf", "al"), None), (L, None, G.ALL_ROUTES, None)]
+    for L, nt, routes, typing in jobs:
         o = orc if L is None else orc.tiled(L)
-        # small batches: 2 OpenMP threads (cheap to wake); the 4097-row batches: 1, 4 and the default thread count
-        for nt in ((2,) if (L or 0) < 4097 else (1, 4, None)):
-            with G.omp_threads(rt, nt):
-                J = G.judge_fwd(rt, o, routes=("py", "c", "cf", "numba", "rg") if nt in (2, None) else ("c", "cf"))
-            stats["thread_counts"].add(nt or stats["default_threads"])
-            if J.problems:
-                break
+        with G.omp_threads(rt, nt):
+            J = G.judge_fwd(rt, o, routes=routes, typing=typing, count=stats["families"])
+        stats["thread_counts"].add(nt or stats["default_threads"])
         stats["comparisons"] += J.ncmp
         stats["worst_ratio"] = max(stats["worst_ratio"], J.worst)
         if J.problems:
@@ -49,8 +87,9 @@ def judge_batch(chk, rt, group, lengths, stats, replaying=None):
                 print("  violation: %s" % what)
                 chk.violations.append((what, replaying))
             else:
-                chk.violation(what, {"kind": "fwd", "records": group, "length": L, "threads": nt,
-                                     "problems": J.problems[:20]})
+                chk.violation(what, {"kind": "fwd", "records": group, "length": L, "threads": nt, "routes": list(routes),
+                                     "typed": typing, "problems": J.problems[:20]})
+            break
     return orc
 
 
@@ -70,11 +109,12 @@ def run(tier, replay=None):
         "from the exact integers emitted by the specification",
         "eta is not compared where (dy, dz) = (0, 0) exactly; tolerance |x-e| <= 1e-9*scale + 1e-12, angles 1e-6 degree",
     ]
-    stats = {"comparisons": 0, "worst_ratio": 0.0, "thread_counts": set(),
+    stats = {"comparisons": 0, "worst_ratio": 0.0, "thread_counts": set(), "families": {},
              "default_threads": int(rt.c.cimaged11_omp_get_max_threads())}
     if replay:
         case = json.load(open(replay))["case"]
-        judge_batch(chk, rt, case["records"], [case.get("length")], stats, replaying=replay)
+        judge_batch(chk, rt, case["records"], [case.get("length")], stats, replaying=replay,
+                    plan={"routes": G.ALL_ROUTES, "typed": case.get("typed")})
         chk.traces += len(case["records"])
         chk.case(replay)
         chk.sample({"replayed": replay})
@@ -107,7 +147,23 @@ def run(tier, replay=None):
         lengths = [None]
         if rng.random() < frac:
             lengths += [1, 2, 4097]
-        orc = judge_batch(chk, rt, group, lengths, stats)
+        # Every batch of the exhaustive corner set goes through every basic family; a parameter set met by the simulation
+        # only (mostly one peak) always goes through the reference, the compiled fast path, columnfile fast / slow, the
+        # numba copies and refinegrains.compute_gv, and through the dearer families on seeded subsets: Ctransform buffers
+        # / histories and assignlabels on a half each, the histories of one columnfile object on a quarter, the two further
+        # get_local_gv grids on a third.  For all batches: columnfile storage / naming variants on a third, the history
+        # through a parameter file on disk on a quarter, the two positions of the batch's grain in assignlabels alternate,
+        # and a twentieth goes through every family once more with the parameters typed as a parameter file yields them
+        u = rng.random(8)
+        if len(group) >= 4:
+            routes = BASE_ROUTES
+        else:
+            routes = ("py", "c", "cf", "numba", "rg") + (("ct",) if u[3] < 0.5 else ()) + (("al",) if u[4] < 0.5 else ()) \
+                     + (("cf_nohist",) if u[5] >= 0.25 else ()) + (("numba_1grid",) if u[6] >= 1 / 3. else ())
+        plan = {"routes": routes + (("cfx",) if u[0] < 1 / 3. else ()) + (("cf_file",) if u[1] < 0.25 else ())
+                + (("al_last", "al_first")[gi % 2],),
+                "typed": None if u[2] >= 0.05 else ("int", "str")[gi % 2]}
+        orc = judge_batch(chk, rt, group, lengths, stats, plan=plan)
         par = group[0]["par"]
         for s in seen_angles:
             seen_angles[s].add(tuple(par[s]))
@@ -128,6 +184,7 @@ def run(tier, replay=None):
         if len(chk.violations) > 24:
             break
     stats["thread_counts"] = sorted(stats["thread_counts"])
+    stats["families"] = {k: int(stats["families"].get(k, 0)) for k in G.FAMILIES}
     chk.notes.update(stats)
     chk.notes["batches"] = len(groups)
     chk.notes["replay_s"] = round(time.time() - t0, 1)
@@ -137,8 +194,9 @@ def run(tier, replay=None):
     chk.notes["pixel_size_sign_pairs"] = len(seen["sizes"])
     for k in ("t_nonzero", "eta_undefined", "normlaw_in_tlc", "pythagorean_3"):
         chk.notes["records_" + k] = int(seen[k])
-    chk.notes["routes"] = ["transform (reference)", "Ctransform + raw cImageD11", "columnfile fast/slow", "numba point_by_point",
-                           "refinegrains.compute_gv"]
+    chk.notes["routes"] = ["transform (reference)", "Ctransform + raw cImageD11 (out= buffers, reset histories)",
+                           "columnfile fast/slow (histories, storage / naming variants)", "numba point_by_point",
+                           "refinegrains.compute_gv", "refinegrains.assignlabels"]
     # vacuity guards (only meaningful for a run that was not cut short by violations)
     if chk.violations:
         return chk.finish()
@@ -148,8 +206,11 @@ def run(tier, replay=None):
             raise common.MachineryError("vacuity: switch %s saw only %d angle values" % (s, len(v)))
     if seen["t_nonzero"] == 0 or seen["normlaw_in_tlc"] == 0 or seen["pythagorean_3"] == 0 or seen["eta_undefined"] == 0:
         raise common.MachineryError("vacuity: %r" % (seen,))
-    if tier == "thorough" and (len(seen["flip"]) != 8 or len(seen["sgn"]) != 2 or len(seen["sizes"]) != 4):
-        raise common.MachineryError("vacuity: lattice incomplete %r" % (seen,))
+    if len(seen["flip"]) != 8 or len(seen["sgn"]) != 2 or len(seen["sizes"]) != 4:
+        raise common.MachineryError("vacuity: not all 8 flips x 2 omega signs x 4 pixel-size sign pairs occurred %r" % (seen,))
+    for k, v in stats["families"].items():
+        if v < 20:
+            raise common.MachineryError("vacuity: instance family %s was exercised %d times" % (k, v))
     selftest(rt, groups)
     return chk.finish()
 
